@@ -310,3 +310,78 @@ def programs(tier: str, seed: int) -> Iterator[tuple[str, dict[str, Any]]]:
     yield from f2_nesting(seed, 150 if tier == "quick" else 6000, 2 if tier == "quick" else 3)
     yield from f3_labels(tier, seed, 60 if tier == "quick" else 2000)
     yield from f4_tables()
+
+
+# ---- F6(c): raw routine sets (seeded) --------------------------------------------------------------------------
+def f6_raw(seed: int, n: int, maxops: int = 6) -> Iterator[tuple[str, Any]]:
+    """well-formed op lists as a binary reader delivers them: ("raw", [routine kinds], [[(name, params, target_index|None)]])
+    targets are indices into the global op numbering; every routine ends in a flow-ending op or a jump"""
+    rng = random.Random(seed * 15485863 + 11)
+    acts = [("a", [1]), ("b", []), ("say", [("str", "x")]), ("flag_Set", [("const", "$V"), 3])]
+    for i in range(n):
+        nr = rng.randint(1, 2)
+        sizes = [rng.randint(1, maxops) for _ in range(nr)]
+        total = sum(sizes)
+        routines = []
+        base = 0
+        for r in range(nr):
+            ops: list[Any] = []
+            for k in range(sizes[r]):
+                last = k == sizes[r] - 1
+                if last:
+                    choice = rng.choice(["Return", "End", "Hold", "Jump"])
+                else:
+                    choice = rng.choice(["act", "act", "ctx", "Branch", "BranchBit", "Jump", "Call", "Return", "End",
+                                         "Hold", "Switch", "Case"])
+                tgt = rng.randrange(total) if rng.random() < 0.25 else base + rng.randrange(sizes[r])
+                if choice == "act":
+                    nm, ps = rng.choice(acts)
+                    ops.append((nm, list(ps), None))
+                elif choice == "ctx":
+                    ops.append((rng.choice(["lives", "object", "performer"]), [rng.randint(0, 3)], None))
+                elif choice == "Branch":
+                    ops.append(("Branch", [("const", "$A"), rng.randint(0, 2)], tgt))
+                elif choice == "BranchBit":
+                    ops.append(("BranchBit", [("const", "$B"), 1], tgt))
+                elif choice == "Switch":
+                    ops.append(("Switch", [("const", "$V")], None))
+                elif choice == "Case":
+                    if ops and ops[-1][0] in ("Switch", "Case"):
+                        ops.append(("Case", [rng.randint(0, 3)], tgt))
+                    else:
+                        ops.append(("Switch", [("const", "$V")], None))
+                elif choice in ("Jump", "Call"):
+                    ops.append((choice, [], tgt))
+                else:
+                    ops.append((choice, [], None))
+            routines.append(ops)
+            base += sizes[r]
+        yield f"F6c.{seed}.{i}", ("raw", routines)
+
+
+def build_raw(raw: Any) -> tuple[list[Any], list[list[Any]], list[Any]]:
+    """materialise an F6(c) description as real SsbOperation lists with reader-style offsets"""
+    from explorerscript.ssb_converting.ssb_data_types import (SsbOperation, SsbOpCode, SsbRoutineInfo, SsbRoutineType,
+                                                             SsbOpParamConstant, SsbOpParamConstString)
+
+    def val(v: Any) -> Any:
+        if isinstance(v, tuple) and v[0] == "const":
+            return SsbOpParamConstant(v[1])
+        if isinstance(v, tuple) and v[0] == "str":
+            return SsbOpParamConstString(v[1])
+        return v
+
+    _, routines = raw
+    infos = [SsbRoutineInfo(SsbRoutineType.GENERIC, 0) for _ in routines]
+    out = []
+    n = 0
+    for r in routines:
+        ops = []
+        for (nm, ps, tgt) in r:
+            params = [val(p) for p in ps]
+            if tgt is not None:
+                params.append(tgt)
+            ops.append(SsbOperation(n, SsbOpCode(-1, nm), params))
+            n += 1
+        out.append(ops)
+    return infos, out, [None] * len(routines)
